@@ -1423,6 +1423,223 @@ Proof.
   exact (repair_rfinal lower_s op _ _ _ ar pr stop _ _ Hok Ew).
 Qed.
 
+(* ---------------------------------------------------------------- edit *)
+
+(* the applied list splits at the edited patch (or the patch is not applied) *)
+Lemma after_name_split : forall n l,
+  (~ In n l /\ after_name n l = []) \/ exists pre, l = pre ++ n :: after_name n l.
+Proof.
+  intros n. induction l as [|x r IH]; [left; split; [tauto|reflexivity]|]. cbn [after_name].
+  destruct (name_eqb x n) eqn:E.
+  - apply name_eqb_eq in E. subst x. right. now exists [].
+  - apply name_eqb_false in E. destruct IH as [[Hn Ha]|[pre Hp]].
+    + left. split; [|exact Ha]. intros [Hx|Hx]; contradiction.
+    + right. exists (x :: pre). cbn [app]. now f_equal.
+Qed.
+
+Lemma filter_negmem_incl : forall (l l' : list name),
+  incl l l' -> filter (fun n => negb (mem n l')) l = [].
+Proof.
+  induction l as [|x l IH]; intros l' Hi; cbn [filter]; [reflexivity|].
+  assert (Hx : mem x l' = true) by (apply mem_In, Hi; now left).
+  rewrite Hx. cbn [negb]. apply IH. intros y Hy. apply Hi. now right.
+Qed.
+
+Lemma split_at_first_app : forall (a b : list name),
+  (forall x, In x a -> ~ In x b) ->
+  split_at_first (fun n => mem n b) (a ++ b) = (a, b).
+Proof.
+  intros a b. unfold split_at_first. induction a as [|x a IH]; intros Hd.
+  - cbn [app]. destruct b as [|y r]; [reflexivity|].
+    cbn [position]. assert (Hy : mem y (y :: r) = true) by (apply mem_In; now left).
+    rewrite Hy. reflexivity.
+  - cbn [app position].
+    assert (Hx : mem x b = false). { apply mem_false. apply Hd. now left. }
+    rewrite Hx.
+    pose proof (IH (fun y Hy => Hd y (or_intror Hy))) as IH'.
+    destruct (position (fun n => mem n b) (a ++ b)) as [i|]; cbn [option_map].
+    + cbn [firstn skipn]. injection IH' as E1 E2. congruence.
+    + injection IH' as E1 E2. congruence.
+Qed.
+
+(* popping exactly a suffix of the applied list: nothing is popped incidentally *)
+Lemma pop_above : forall t pre ab,
+  t_applied t = pre ++ ab -> NoDup (t_applied t) ->
+  pop_patches (fun n => mem n ab) t = (set_lists t pre (ab ++ t_unapplied t) (t_hidden t), []).
+Proof.
+  intros t pre ab Ha Hnd. unfold pop_patches. rewrite Ha.
+  rewrite split_at_first_app.
+  - rewrite (filter_negmem_incl ab ab (incl_refl _)), filter_all; [reflexivity|].
+    apply Forall_forall. intros x Hx. now apply mem_In.
+  - rewrite Ha in Hnd. apply nodup_app in Hnd as (_ & _ & Hd). exact Hd.
+Qed.
+
+(* replacing the commit of a patch that is not applied *)
+Lemma update_notin_inv : forall K pn o pc t,
+  tinv K t -> t_head t = None -> ~ In pn (t_applied t) -> t_patch t pn = Some pc ->
+  parents_of (t_objs t) o = parents_of (t_objs t) pc ->
+  rinvP K (fun t' => t_applied t' = t_applied t) (update_patch pn o t).
+Proof.
+  intros K pn o pc t H Hh Hn Hpc Hpar. unfold update_patch. rewrite Hpc.
+  set (t' := set_updated _ _).
+  assert (Hpat : forall m, t_patch t' m = if name_eqb pn m then Some o else t_patch t m).
+  { intros m. unfold t_patch, t'. tproj. rewrite up_get_set. now destruct (name_eqb pn m). }
+  cbn [rinvP]. split; [|split; [exact Hh|reflexivity]].
+  assert (Hoids : toids t' = toids t).
+  { unfold toids. change (t_applied t') with (t_applied t). apply map_ext_in. intros m Hm.
+    unfold toid. rewrite Hpat. rewrite name_eqb_neq; [reflexivity|]. intros ->. contradiction. }
+  destruct H as [X1 X2 X3 X4 X5 X6 ti_has0 ti_single0 ti_chain0 X10]. constructor; try assumption.
+  - intros m Hm. rewrite Hpat. destruct (name_eqb pn m); [discriminate|]. now apply ti_has0.
+  - intros m o' Hm. rewrite Hpat in Hm. destruct (name_eqb pn m).
+    + injection Hm as <-. change (t_objs t') with (t_objs t). rewrite Hpar. eauto.
+    + eauto.
+  - change (t_objs t') with (t_objs t). change (t_base_oid t') with (t_base_oid t).
+    rewrite Hoids. exact ti_chain0.
+  - left. exact Hh.
+Qed.
+
+(* the closure of edit: pop the patches above, swap in a commit with the same parents, push back *)
+Lemma edit_rinv : forall K pn o pc t,
+  tinv K t -> t_head t = None -> t_patch t pn = Some pc ->
+  parents_of (t_objs t) o = parents_of (t_objs t) pc ->
+  rinv K (let above := after_name pn (t_applied t) in
+          let '(t1, extra) := pop_patches (fun n => mem n above) t in
+          match extra with
+          | _ :: _ => TPanic
+          | [] => tbind (update_patch pn o t1) (push_patches above false)
+          end).
+Proof.
+  intros K pn o pc t H Hh Hpc Hpar. cbv zeta.
+  pose proof (ti_nodup K t H) as Hnd.
+  set (above := after_name pn (t_applied t)).
+  assert (Hsplit : exists pre, t_applied t = pre ++ above
+             /\ (~ In pn pre \/ exists l, pre = l ++ [pn])).
+  { destruct (after_name_split pn (t_applied t)) as [[Hn Ha]|[pre Hp]].
+    - exists (t_applied t). unfold above. rewrite Ha, app_nil_r. split; [reflexivity|now left].
+    - exists (pre ++ [pn]). fold above in Hp. split; [now rewrite <- app_assoc|right; now exists pre]. }
+  destruct Hsplit as (pre & Ha & Hcase).
+  pose proof (pop_patches_inv K (fun n => mem n above) t H Hh) as Hp. cbv zeta in Hp.
+  rewrite (pop_above t pre above Ha Hnd) in Hp |- *. cbn [fst] in Hp. cbv beta iota.
+  set (t1 := set_lists t pre (above ++ t_unapplied t) (t_hidden t)) in *.
+  destruct Hp as (H1 & Hh1 & _).
+  assert (Hpc1 : t_patch t1 pn = Some pc) by exact Hpc.
+  assert (Hpar1 : parents_of (t_objs t1) o = parents_of (t_objs t1) pc) by exact Hpar.
+  assert (Hup : rinvP K (fun t' => t_applied t' = pre) (update_patch pn o t1)).
+  { destruct Hcase as [Hn|[l Hl]].
+    - exact (update_notin_inv K pn o pc t1 H1 Hh1 Hn Hpc1 Hpar1).
+    - exact (update_top_inv K pn o pc l t1 H1 Hh1 Hl Hpc1 Hpar1). }
+  unfold rinv. eapply rinvP_bind; [exact Hup|].
+  cbv beta. intros t2 H2 Hh2 Ha2.
+  eapply rinvP_weaken; [|apply push_patches_inv; [exact H2|exact Hh2|]]; [auto|].
+  rewrite Ha2, <- Ha. exact Hnd.
+Qed.
+
+Lemma step_edit : forall w loc meta msg, Inv w -> CInv w -> CInv (fst (run_edit w loc meta msg)).
+Proof.
+  intros w loc meta msg Hinv Hc. unfold run_edit.
+  destruct (match loc with
+            | Some o => match parse_locator o with Some l => Some (Some l) | None => None end
+            | None => Some None end) as [loc_l|]; [|exact Hc].
+  open_cmd Hinv Hc op Eop Hok. cbv zeta.
+  set (s := op_state op) in *.
+  destruct (negb (head_top_ok op)); [triv Hc Hok|].
+  match goal with |- CInv (fst (rres_bind _ ?r _)) => destruct r as [pn| |] end;
+    [|triv Hc Hok|triv Hc Hok].
+  cbn [rres_bind].
+  destruct (pm_get (s_patches s) pn) as [pc|] eqn:Epc; [|triv Hc Hok].
+  destruct (get (w_objs (op_world op)) pc) as [old|] eqn:Eg; [|triv Hc Hok].
+  match goal with |- CInv (fst (if ?c then _ else _)) => destruct c end; [triv Hc Hok|].
+  unfold put. set (c := plain _ _ _ _). set (objs' := w_objs (op_world op) ++ [c]).
+  pose proof (opened_ok_with_objs op objs' Hok (ns_extends_put_plain _ _ _ _ _)) as Hok'.
+  eapply transact_cinv_rinv; [exact Hok'|]. intros t0 H0 Hh0 E0. cbv beta.
+  apply (edit_rinv _ pn _ pc); [exact H0|exact Hh0| |]; subst t0.
+  - exact Epc.
+  - cbn [begin_txn t_objs op_world with_objs w_objs]. unfold objs', c. rewrite parents_put_new.
+    unfold parents_of. now rewrite (get_app_some _ _ _ _ Eg).
+Qed.
+
+(* ---------------------------------------------------------------- rebase *)
+
+Lemma log_extmods_first_applied : forall op0 op,
+  log_extmods_first op0 = Some op -> s_applied (op_state op) = s_applied (op_state op0).
+Proof.
+  intros op0 op E. unfold log_extmods_first in E.
+  destruct (Nat.eqb _ _); [now injection E as <-|].
+  unfold log_external_mods in E. destruct (w_stack (op_world op0)) as [so|]; [|discriminate].
+  destruct (state_commit _ _ _) as [[objs' so']|]; [|discriminate].
+  injection E as <-. reflexivity.
+Qed.
+
+(* the state recorded by the first (pop everything) transaction of rebase *)
+Lemma rebase_first : forall op o w2,
+  opened_ok op ->
+  transact op o (fun t => TOk (fst (pop_patches (fun n => mem n (s_applied (op_state op))) t))) MOp
+    = (w2, X0) ->
+  exists s2, cur_state w2 = Some s2 /\ sgood (w_objs w2) s2 /\ s_applied s2 = [].
+Proof.
+  intros op o w2 Hok Ht.
+  unfold transact in Ht. cbv beta iota in Ht.
+  destruct (negb (op_initialized op)); [discriminate|].
+  set (t0 := begin_txn op o) in *. set (s := op_state op) in *.
+  pose proof (sgood_applied_nodup _ _ (oo_good op Hok)) as Hnd. fold s in Hnd.
+  assert (Ep : pop_patches (fun n => mem n (s_applied s)) t0
+               = (set_lists t0 [] (s_applied s ++ t_unapplied t0) (t_hidden t0), [])).
+  { apply (pop_above t0 [] (s_applied s)); [reflexivity|exact Hnd]. }
+  rewrite Ep in Ht. cbn [fst] in Ht.
+  set (t' := set_lists t0 [] (s_applied s ++ t_unapplied t0) (t_hidden t0)) in *.
+  apply execute_ok_state in Ht as (st1 & prev & th & Hp & Hth & Hcur & Hext & _).
+  change (t_objs t') with (w_objs (op_world op)) in Hext.
+  change (t_stack t') with s in Hp.
+  set (s2 := new_state t' st1 prev th) in *.
+  exists s2. split; [exact Hcur|]. split; [|reflexivity].
+  assert (Hpg : forall m, pm_get (s_patches s2) m = pm_get (s_patches s) m).
+  { intros m. unfold s2, new_state. cbn [s_patches]. rewrite pm_get_apply, Hp. reflexivity. }
+  assert (Hall : all_of s2 = all_of s).
+  { change (all_of s2) with ((s_applied s ++ s_unapplied s) ++ s_hidden s).
+    unfold all_of. symmetry. apply app_assoc. }
+  destruct (oo_good op Hok) as (G1 & G2 & G3). fold s in G1, G2, G3.
+  repeat split.
+  - rewrite Hall. exact G1.
+  - intros n Hn. rewrite Hpg. apply G2. now rewrite <- Hall.
+  - intros n o' Hn. rewrite Hpg in Hn. destruct (G3 n o' Hn) as [p Hp']. exists p.
+    now apply (parents_of_ext _ _ _ _ _ Hext).
+Qed.
+
+Lemma step_rebase : forall w tg, Inv w -> CInv w -> CInv (fst (run_rebase w tg)).
+Proof.
+  intros w tg Hinv Hc. unfold run_rebase.
+  open_cmd Hinv Hc op Eop Hok. cbv zeta.
+  set (s := op_state op) in *. pose proof (oo_good op Hok) as Hg. fold s in Hg.
+  destruct (resolve_gtarget (op_world op) tg) as [target|]; [|triv Hc Hok].
+  destruct (Nat.eqb target (op_base op)); [triv Hc Hok|].
+  destruct (negb (head_top_ok op)); [triv Hc Hok|].
+  destruct (dirty (op_world op)); [triv Hc Hok|].
+  match goal with |- context [transact op ?o ?f MOp] =>
+    destruct (transact op o f MOp) as [w2 x] eqn:Et1 end.
+  assert (C2 : CInv w2).
+  { change w2 with (fst (w2, x)). rewrite <- Et1.
+    eapply transact_cinv_rinv; [exact Hok|]. intros t0 H0 Hh0 _.
+    destruct (pop_patches_inv _ (fun n => mem n (s_applied s)) t0 H0 Hh0) as (H1 & Hh1 & _).
+    cbn [rinv rinvP]. auto. }
+  destruct x; try exact C2.
+  destruct (rebase_first op _ w2 Hok Et1) as (s2 & Hcur & Hg2 & Ha2).
+  set (w3 := mkWorld _ _ _ _ _ _ _).
+  assert (C3 : CInv w3) by (apply (cinv_same_objs w2); [reflexivity|exact C2]).
+  assert (Hcur3 : cur_state w3 = Some s2) by exact Hcur.
+  destruct (open_stack PRequire w3) as [op3|] eqn:Eop3; [|exact C3].
+  assert (Hcg : cur_good w3). { intros s' Hs'. rewrite Hcur3 in Hs'. injection Hs' as <-. exact Hg2. }
+  destruct (open_stack_ok_gen _ _ _ Eop3 Hcg C3) as (Hok3 & _ & _).
+  destruct (open_stack_cur _ _ _ s2 Eop3 ltac:(discriminate) Hcur3) as (Es3 & _).
+  destruct (log_extmods_first op3) as [op4|] eqn:El; [|triv Hc Hok3].
+  destruct (log_extmods_first_ok op3 op4 Hok3 El) as (Hok4 & _).
+  pose proof (log_extmods_first_applied _ _ El) as Ea4.
+  destruct (negb (head_top_ok op4)); [triv Hc Hok4|].
+  eapply transact_cinv_rinv; [exact Hok4|]. intros t0 H0 Hh0 E0.
+  eapply rinvP_rinv. apply push_patches_inv; [exact H0|exact Hh0|].
+  subst t0. cbn [begin_txn t_applied]. rewrite Ea4, Es3, Ha2. cbn [app].
+  eapply sgood_applied_nodup. exact Hg.
+Qed.
+
 Theorem step_chain : forall lower_s w c,
   in_scope c = true -> Inv w ->
   (forall so s, state_of (w_objs w) so = Some s -> chain_ok (w_objs w) s) ->
@@ -1453,6 +1670,8 @@ Proof.
   - destruct ranges; [discriminate|]. now apply step_reset.
   - now apply step_repair.
   - now apply step_log_clear.
+  - now apply step_edit.
+  - now apply step_rebase.
   - now apply step_inspect.
   - now apply step_git.
   - now apply step_git.
